@@ -3,6 +3,7 @@ package c04
 import (
 	"math/big"
 	"sort"
+	"sync"
 )
 
 // Exact binomial CDF oracle in math/big, independent of the float64 / gonum
@@ -31,6 +32,9 @@ type dist struct {
 	lo  int64
 	F   []*big.Float
 	pmf []*big.Float // pmf[i] = Pr(X = lo+i)
+
+	tOnce sync.Once
+	T     []*big.Float // upper tails, T[i] = Pr(X > lo+i), built on first use (tail.go)
 }
 
 // newDist builds the distribution for success probability p (0 < p; p >= 1 is
